@@ -143,7 +143,10 @@ PROPS = {
                        {'name': 'votes', 'quick': '-n 200 -ops 70', 'thorough': '-n 2000 -ops 150', 'shards': {'quick': 2, 'thorough': 8}},
                        {'name': 'oracle', 'quick': '-n 200 -ops 80', 'thorough': '-n 2000 -ops 160', 'shards': {'quick': 2, 'thorough': 8}},
                        # hostile events (amounts that overflow a conversion, negative fees, unknown tokens): every Begin/EndBlocker returns normally
-                       {'name': 'hub', 'quick': '-n 60 -ops 60 -hostile', 'thorough': '-n 600 -ops 120 -hostile', 'shards': {'quick': 2, 'thorough': 8}}],
+                       {'name': 'hub', 'quick': '-n 60 -ops 60 -hostile', 'thorough': '-n 600 -ops 120 -hostile', 'shards': {'quick': 2, 'thorough': 8}},
+                       # deposits not capped below 2^255 of hub value: refunds and mints run into the bank's 256-bit supply limit
+                       # (seed 9204 case 45 is the input on which the expiry refund used to panic out of the EndBlocker, fixed by 8157192)
+                       {'name': 'hub', 'seed_base': 9204, 'quick': '-n 60 -ops 120 -hostile -consistent -nocap', 'thorough': '-n 100 -ops 120 -hostile -consistent -nocap', 'shards': {'quick': 1, 'thorough': 8}}],
             'trusted_base': [
                 'translator bin/gen_iterfacts.py (syntactic; calls are resolved by name inside module/x/mhub2 and module/x/oracle, transitively): regenerates coq/Gen/IterFacts.v on every run: the bodies that run while a store iterator is open '
                 '(callbacks of the keepers\' Iterate* helpers, for-iter.Valid loops; calls through longer selectors and interface fields such as k.ExternalEventProcessor.Handle are resolved by method name, an over-approximation) and the calls in them that write to the module store and open another iterator (iter_write_sites, must be empty) or only write (iter_plain_write_sites)',
@@ -151,8 +154,9 @@ PROPS = {
                 'This reduction is read from cosmos-sdk v0.45.4 store/cachekv and tm-db v0.6.6 memdb (trusted, reproduced by the watchdog runs on the reverted fix and on the seeded change)',
                 'correspondence / runtime half: suite blocks executes hub histories with every block on a cache-wrapped multistore (as deliverState), BeginBlocker/EndBlocker under a 20 s watchdog (code 3 = did not return), hostile amounts and bursts of 60-110 transfers, '
                 'timed-out full batches and mass expiries in one block; suites votes and oracle run the tally / oracle EndBlocker; the monitor flags every block-processing call that does not return normally',
-                'proved on the models: BeginBlocker never panics (configured chains known, block times non-zero), an applied event fails on its own, tally and oracle never panic. NOT proved: panic freedom of the expiry refunds inside the EndBlocker '
-                '(cancel/refund arithmetic on stored entries after token-list changes) — covered by the hostile correspondence only'],
+                'proved on the models: BeginBlocker never panics (configured chains known, block times non-zero), an applied event fails on its own, tally and oracle never panic, and the hub EndBlocker (tally + expiry refunds of every chain) always completes '
+                '(C05_end_block_never_fails: any pool, balances, supply up to the bank\'s 256-bit limit, token list) — true of the tree after fix 8157192, which contains a panicking expiry refund like a failing one; '
+                'the model\'s panic points (sdk.Int beyond 2^256-1 in mint / conversion, missing token entries) are tied to the code by the hostile and the uncapped (-nocap) correspondence streams'],
             'rule': 'blocks: hub histories (hostile stream: negative / zero / 2^255-scale amounts and fees, unknown tokens and chains, missing prices) with up to three bursts of 60-110 transfers written in one block, followed by a batch request + timeout of the whole batch, '
                     'or by a 62 s jump so that they expire next to a second burst; every BeginBlocker/EndBlocker on a cache-wrapped multistore under a watchdog. votes / oracle: as for C02/C03 and C18.',
             'assumptions': ['every configured chain id is one of ethereum, bsc, minter, hub and the average block times are non-zero (hypothesis params_ok; an unknown chain id divides by zero in getBatchTimeoutHeight)',
@@ -239,7 +243,9 @@ PROPS = {
             'rule': HUB_RULE,
             'assumptions': ['chain ids are prefix-free',
                             '"can no longer execute" relies on the contract model (block.number < timeout, per-token nonce) of C08; that observed heights come only from applied claims is the theorem C13_observed_height_only_from_applied_claims']},
-    'C10': {'suites': hub_suite(), 'trusted_base': HUB_TB, 'rule': HUB_RULE,
+    # flood: four or five tokens of one chain with a backlog of 100-112 transfers each, batched by one BeginBlocker (about 450 operations per case)
+    'C10': {'suites': hub_suite() + [{'name': 'hub', 'quick': '-n 2 -ops 40 -flood', 'thorough': '-n 3 -ops 40 -flood', 'shards': {'quick': 4, 'thorough': 5}}],   # the driver needs 3-8 GB per shard on these histories
+            'trusted_base': HUB_TB, 'rule': HUB_RULE,
             'assumptions': ['chain ids are prefix-free', 'uint64 counters do not wrap']},
 }
 
@@ -277,7 +283,7 @@ TEXT = {
             'note': 'Trusted: Coq kernel, the syntactic translator, extraction + driver, Go harness; replays are tests.'},
     'C05': {'technique': 'Coq theorem on iterator nesting (lock skeleton) over facts translated from the keepers + no-panic theorems on the models + watchdog correspondence on a cache-wrapped multistore',
             'level': 'Theorems: code without an iterator body that both writes and opens another iterator never blocks (all loop counts, all dirty-entry counts), the excluded shape does block, and the current keepers contain no such site; BeginBlocker never panics for known chains; '
-                     'an applied event fails on its own; tally and oracle never panic. PARTIAL: EndBlocker expiry refunds are not proved panic-free; deadlock freedom of the real store is the lock model plus watchdog runs, not a proof about cachekv/MemDB.',
+                     'an applied event fails on its own; tally and oracle never panic; the hub EndBlocker always completes on the model (expiry refunds that fail or panic are dropped on their own, after fix 8157192). PARTIAL: deadlock freedom of the real store is the lock model plus watchdog runs, not a proof about cachekv/MemDB.',
             'note': 'Trusted: Coq kernel, the syntactic translator, the lock model of cachekv/MemDB, extraction + driver, Go harness with watchdog.'},
     'C01': {'technique': 'Coq potential-function invariant proved by induction over every hub history (history theorem) + custody-ledger monitor over every co-executed history',
             'level': 'Theorem C01_history: along every history of hub operations from the empty state (withdrawal requests, cancellations, batch requests, attested deposits / transfers / batch executions / valset updates, Begin- and EndBlockers with timeouts, refunds, commission and fee payouts), for every parameter set with distinct prefix-free chain ids and every consistent token table with at most 18 external decimals and non-negative commission rates, '
@@ -317,7 +323,7 @@ TEXT = {
             'level': 'Theorems: cancel succeeds only for an unbatched entry of that chain and its sender; the entry is gone afterwards (pool and batches); hub-origin refund = recorded amounts converted back, exact for >=18 decimals, bounded loss otherwise ("exactly" refuted for <18 decimals: known finding). Monitors check authorisation, removal, amount, destination and expiry on the implementation.',
             'note': _HUB_NOTE},
     'C13': {'technique': 'Coq characterisation (iff) of batch removal by sweep and by execution + correspondence',
-            'level': 'Theorems (every state satisfying the proved invariant): the timeout sweep removes a batch iff it is of that chain with timeout below the observed height; Minter batches are never withdrawn by BeginBlocker; an execution removes exactly the batch and (non-Minter) the older same-token batches; the last observed external height (the clock of the sweep) is moved by the tally alone and only to the height of a claim it has just applied (with C02: a claim that had the quorum); composed with the contract model of C08: a batch the sweep withdraws is rejected by submitBatch at every block at or after the observed height. Monitors check the same on the implementation, with contract-consistent external executions.',
+            'level': 'Theorems (every state satisfying the proved invariant): the timeout sweep removes a batch iff it is of that chain with timeout below the observed height; Minter batches are never withdrawn by BeginBlocker; an execution removes exactly the batch and (non-Minter) the older same-token batches; the last observed external height (the clock of the sweep) is moved by the tally alone and only to the height of a claim it has just applied (with C02: a claim that had the quorum); composed with the contract model of C08: a batch the sweep withdraws is rejected by submitBatch at every block at or after the observed height. Monitors check the same on the implementation, with contract-consistent external executions (any order on Minter). PARTIAL: the theorems speak of APPLIED executions; an attested execution claim whose handling fails is dropped and removes nothing (genuine defect, known finding C13/execution-event-dropped, the C13 face of C01/execution-event-dropped).',
             'note': _HUB_NOTE},
     'C19': {'technique': 'Coq inequalities over Z for arbitrary batches + correspondence',
             'level': 'Theorems for all batches/fee spreads/power splits: reimbursement <= total fee, sum of refunds <= surplus, each refund <= own fee (<=18 decimals), commission shares floor-proportional with sum <= collected, fee record within [0, fee]; the per-user bound is refuted for >18 decimals by a kernel-checked witness. Monitors on the implementation.',
